@@ -38,7 +38,11 @@ PY = '/venv/bin/python'
 
 def model_checks(tier):
     return [dict(module='mc/MC_DataStream', cfg='mc/MC_DataStream_checked', workers=4,
-                 must_cover=['Read', 'ReadRejected'])]
+                 must_cover=['Read', 'ReadRejected']),
+            # parsePEL over every PEL of <= 3 sections x every truncation length: PrefixRejected, InBounds,
+            # termination (the loop variant), WholeDecoded
+            dict(module='mc/MC_PelDecoder', cfg='mc/MC_PelDecoder_skew0',
+                 must_cover=['PH', 'UH', 'Loop', 'Hdr', 'BodyStep'])]
 
 
 def _base_pels(rng, n):
